@@ -205,8 +205,13 @@ class Sym:
         c = ctx()
         a = self.e if not z3.is_int(self.e) else z3.ToReal(self.e)
         c.assume(a >= 0, "sqrt argument >= 0")
+        key = ("sqrt", a.get_id())
+        if key in c.div_cache:
+            return Sym(c.div_cache[key])
         r = c.fresh_real("sqrt")
-        c.define(z3.And(r >= 0, r * r == a), "sqrt(a) as fresh r with r>=0, r*r == a")
+        c.define_lazy(z3.And(r >= 0, r * r == a), "sqrt(a) as fresh r with r>=0, r*r == a")
+        c.div_cache[key] = r
+        c.keep.append(a)
         return Sym(r)
 
     def exp(self):
@@ -311,8 +316,9 @@ def _divide(n, d):
         return Sym(c.div_cache[key])
     c.assume(d != 0, "divisor != 0 (definedness of a/b)")
     q = c.fresh_real("quot")
-    c.define(q * d == n, "a/b as fresh q with q*b == a")
+    c.define_lazy(q * d == n, "a/b as fresh q with q*b == a")
     c.div_cache[key] = q
+    c.keep.extend([n, d])
     return Sym(q)
 
 
@@ -578,6 +584,9 @@ class Context:
         self.propagated = 0
         self.prop_total = 0
         self.prop_crosschecked = 0
+        self.lazy = []
+        self.keep = []
+        self.lazy_used = 0
         self.cut_prefixes = []
         self.leftover = []
         self.violations = []  # filled by prove(): dicts with label, model
@@ -592,6 +601,8 @@ class Context:
         self.dom = {}
         self.tainted = set()
         self.propagated = 0
+        self.lazy = []
+        self.keep = []
 
     def backtrack(self):
         """advance the trail to the next unexplored path; False when exhausted"""
@@ -823,6 +834,15 @@ class Context:
         self.trail.append([0, [], 1])
         self._record(cond)
 
+    def define_lazy(self, cond, why):
+        """definitional side condition of a fresh variable (quotient, square root).  It is kept
+        out of the solver until an obligation cannot be discharged without it: an obligation
+        that holds for an arbitrary value of the fresh variable holds for the defined one, and a
+        counterexample is only believed when it satisfies every definition."""
+        if why:
+            self.assumptions[why] = self.assumptions.get(why, 0) + 1
+        self.lazy.append(cond)
+
     def assume(self, cond, why):
         """restrict the path to cond; ends the path if infeasible"""
         if isinstance(cond, SymB):
@@ -871,15 +891,21 @@ class Context:
         if z3.is_true(s):
             self.stats.discharged += 1
             return True
-        # make sure the solver holds the full path condition
         r = self._check(z3.Not(cond))
         if r == "unsat":
             self.stats.discharged += 1
             return True
+        if self.lazy:
+            # refine: add the definitions of the quotient / square-root variables
+            self.lazy_used += 1
+            r = self._check(z3.Not(cond), *self.lazy)
+            if r == "unsat":
+                self.stats.discharged += 1
+                return True
         if r == "unknown":
             self.stats.unknown += 1
             raise Inconclusive(f"obligation '{label}' undecided (solver: unknown)")
-        m = self.model_of(z3.Not(cond))
+        m = self.model_of(z3.Not(cond), *self.lazy)
         self.stats.violated += 1
         self.violations.append({"label": label, "model": m, "info": info})
         return False
